@@ -16,6 +16,7 @@ import SdnsVerif.Model.Packer
   `msg decide`: `direct:ok/<n> size=<n>` | `lib:<outcome>`
 * `msg serve <ub|ud|ts|tl> <directPack> <-|abort|abort2|commit> lib=<outcome> ulen=<n>` → the model's `udpWrite`/`udpWriteMsg`/`tcpStage` beneath
   `writeMsg` on the same skeleton: `sent=ok/<n>` | `sent=none err` | `panic`
+* `cache flags qd=… qt=… rc=… an=… ns=… ar=…` → the model's `wireServeFlags`: `e=<t|f> s=<t|f> c=<t|f>`
 * `cache strip <an> <ns>` → the model's `prepareStripped`: `an=<n> ns=<n>` | `none`
 * `cache view <kinds>` → what admission keeps for that additional section: `ar=<n> compress=t` | `not-admitted` | `panic`
 * `pool own <events>` → `dup=f|t`: the ownership model run over the endings `ok|err|werr|panic|fail|decl`
@@ -239,6 +240,15 @@ def step (st : State) (w : List String) : State × String :=
       | [.writeMsg] => (st, s!"lib:{lo}")
       | _ => (st, "model-inconsistent")
     | _, _, _, _ => (st, "bad-op")
+  -- `cache flags qd=<n> qt=<t> rc=<r> an=<types> ns=<types> ar=<n>`: the model's `wireServeFlags`
+  | ["cache", "flags", qd, qt, rc, an, ns, _ar] =>
+    let types (x : String) : Option (List Nat) := if x == "-" then some [] else (x.splitOn ",").mapM String.toNat?
+    match (kv "qd" qd).bind String.toNat?, (kv "qt" qt).bind String.toNat?, (kv "rc" rc).bind String.toNat?,
+          (kv "an" an).bind types, (kv "ns" ns).bind types with
+    | some q, some t, some r, some a, some n =>
+      let fl := wireServeFlags q t (r % 16) a n
+      (st, s!"e={boolStr fl.eligible} s={boolStr fl.hasDNSSEC} c={boolStr fl.chaseSafe}")
+    | _, _, _, _, _ => (st, "bad-op")
   -- `cache strip <answer kinds> <authority kinds>`: the model's `prepareStripped` (t TXT, s SOA, r RRSIG, c NSEC, 3 NSEC3)
   | ["cache", "strip", an, ns] =>
     let chars (x : String) : List Char := if x == "-" then [] else x.toList
@@ -254,11 +264,15 @@ def step (st : State) (w : List String) : State × String :=
     let m : Msg (Option Nat × Nat) :=
       { hdr := {}, compress := false, question := [{ name := (some 15, 19), qtype := 16, qclass := 1 }],
         answer := anO.map (·.1), ns := nsO.map (·.1), extra := [] }
-    let due := (anO ++ nsO).any fun e => isSec e.2
+    let anT := anO.map (·.2.hdr.rrtype)
+    let nsT := nsO.map (·.2.hdr.rrtype)
+    -- due and servable are `prepareWireServe`'s verdicts (model: `wireServeFlags`) on the full and the stripped body
+    let due := (wireServeFlags 1 16 0 anT nsT).hasDNSSEC
+    let servable := (wireServeFlags 1 16 0 (stripTypes anT) (stripTypes nsT)).servable
     let sv := strippedView isSec heap m
     let pieces : List (Option Nat) := List.replicate (sv.records.length + 1) (some 20)
     let pst : PState Rest (List (Option Nat)) := { buf := List.replicate packBufferSize 0x55 }
-    match (prepareStripped (lineLib pieces) isSec (fun _ => true) due m heap pst 9999).1 with
+    match (prepareStripped (lineLib pieces) isSec (fun _ => servable) due m heap pst 9999).1 with
     | some _ => (st, s!"an={sv.answer.length} ns={sv.ns.length}")
     | none => (st, "none")
   -- `cache view <kinds of Extra>`: what admission stores for a message with that additional section
